@@ -63,64 +63,295 @@ def Val.beqS : List (Key × Val) → List (Key × Val) → Bool
   | _, _ => false
 end
 
-open Spec in
+/-! destructors: `as_look q = some (off, p)` iff `q = .look off p` (the comparison below is by the constructor of the left form) -/
+section
+open Spec
+def Spec.Patt.as_str : Patt → Option ((List Nat))
+  | .str b => Option.some b
+  | _ => none
+def Spec.Patt.as_int : Patt → Option (Int)
+  | .int n => Option.some n
+  | _ => none
+def Spec.Patt.as_bool : Patt → Option (Bool)
+  | .bool b => Option.some b
+  | _ => none
+def Spec.Patt.as_ref : Patt → Option (String)
+  | .ref name => Option.some name
+  | _ => none
+def Spec.Patt.as_range : Patt → Option ((List (Nat × Nat)))
+  | .range rs => Option.some rs
+  | _ => none
+def Spec.Patt.as_set : Patt → Option ((List Nat))
+  | .set chars => Option.some chars
+  | _ => none
+def Spec.Patt.as_look : Patt → Option (Int × Patt)
+  | .look off p => Option.some (off, p)
+  | _ => none
+def Spec.Patt.as_choice : Patt → Option ((List Patt))
+  | .choice ps => Option.some ps
+  | _ => none
+def Spec.Patt.as_seq : Patt → Option ((List Patt))
+  | .seq ps => Option.some ps
+  | _ => none
+def Spec.Patt.as_if : Patt → Option (Patt × Patt)
+  | .if_ c p => Option.some (c, p)
+  | _ => none
+def Spec.Patt.as_ifnot : Patt → Option (Patt × Patt)
+  | .ifnot c p => Option.some (c, p)
+  | _ => none
+def Spec.Patt.as_not : Patt → Option (Patt)
+  | .not p => Option.some p
+  | _ => none
+def Spec.Patt.as_any : Patt → Option (Patt)
+  | .any p => Option.some p
+  | _ => none
+def Spec.Patt.as_some : Patt → Option (Patt)
+  | .some p => Option.some p
+  | _ => none
+def Spec.Patt.as_opt : Patt → Option (Patt)
+  | .opt p => Option.some p
+  | _ => none
+def Spec.Patt.as_between : Patt → Option (Nat × Nat × Patt)
+  | .between lo hi p => Option.some (lo, hi, p)
+  | _ => none
+def Spec.Patt.as_atleast : Patt → Option (Nat × Patt)
+  | .atleast n p => Option.some (n, p)
+  | _ => none
+def Spec.Patt.as_atmost : Patt → Option (Nat × Patt)
+  | .atmost n p => Option.some (n, p)
+  | _ => none
+def Spec.Patt.as_repeat : Patt → Option (Nat × Patt)
+  | .repeat_ n p => Option.some (n, p)
+  | _ => none
+def Spec.Patt.as_to : Patt → Option (Patt)
+  | .to p => Option.some p
+  | _ => none
+def Spec.Patt.as_thru : Patt → Option (Patt)
+  | .thru p => Option.some p
+  | _ => none
+def Spec.Patt.as_capture : Patt → Option (Patt × Nat)
+  | .capture p tag => Option.some (p, tag)
+  | _ => none
+def Spec.Patt.as_accumulate : Patt → Option (Patt × Nat)
+  | .accumulate p tag => Option.some (p, tag)
+  | _ => none
+def Spec.Patt.as_group : Patt → Option (Patt × Nat)
+  | .group p tag => Option.some (p, tag)
+  | _ => none
+def Spec.Patt.as_drop : Patt → Option (Patt)
+  | .drop p => Option.some p
+  | _ => none
+def Spec.Patt.as_onlytags : Patt → Option (Patt)
+  | .onlytags p => Option.some p
+  | _ => none
+def Spec.Patt.as_replace : Patt → Option (Patt × Val × Nat)
+  | .replace p v tag => Option.some (p, v, tag)
+  | _ => none
+def Spec.Patt.as_cmt : Patt → Option (Patt × Val × Nat)
+  | .cmt p v tag => Option.some (p, v, tag)
+  | _ => none
+def Spec.Patt.as_constant : Patt → Option (Val × Nat)
+  | .constant v tag => Option.some (v, tag)
+  | _ => none
+def Spec.Patt.as_argument : Patt → Option (Nat × Nat)
+  | .argument n tag => Option.some (n, tag)
+  | _ => none
+def Spec.Patt.as_position : Patt → Option (Nat)
+  | .position tag => Option.some tag
+  | _ => none
+def Spec.Patt.as_line : Patt → Option (Nat)
+  | .line tag => Option.some tag
+  | _ => none
+def Spec.Patt.as_column : Patt → Option (Nat)
+  | .column tag => Option.some tag
+  | _ => none
+def Spec.Patt.as_backref : Patt → Option (Nat × Nat)
+  | .backref s tag => Option.some (s, tag)
+  | _ => none
+def Spec.Patt.as_backmatch : Patt → Option (Nat)
+  | .backmatch tag => Option.some tag
+  | _ => none
+def Spec.Patt.as_unref : Patt → Option (Patt × Nat)
+  | .unref p tag => Option.some (p, tag)
+  | _ => none
+def Spec.Patt.as_nth : Patt → Option (Nat × Patt × Nat)
+  | .nth n p tag => Option.some (n, p, tag)
+  | _ => none
+def Spec.Patt.as_error : Patt → Option ((Option Patt))
+  | .error o => Option.some o
+  | _ => none
+def Spec.Patt.as_lenprefix : Patt → Option (Patt × Patt)
+  | .lenprefix a p => Option.some (a, p)
+  | _ => none
+def Spec.Patt.as_sub : Patt → Option (Patt × Patt)
+  | .sub a p => Option.some (a, p)
+  | _ => none
+def Spec.Patt.as_split : Patt → Option (Patt × Patt)
+  | .split a p => Option.some (a, p)
+  | _ => none
+def Spec.Patt.as_til : Patt → Option (Patt × Patt)
+  | .til a p => Option.some (a, p)
+  | _ => none
+def Spec.Patt.as_readint : Patt → Option (Nat × Bool × Bool × Nat)
+  | .readint w sg be tag => Option.some (w, sg, be, tag)
+  | _ => none
+def Spec.Patt.as_number : Patt → Option (Patt × Nat × Nat)
+  | .number p base tag => Option.some (p, base, tag)
+  | _ => none
+def Spec.Patt.as_grammar : Patt → Option ((List (String × Patt)))
+  | .grammar rs => Option.some rs
+  | _ => none
+
 mutual
 def Spec.Patt.beq : Patt → Patt → Bool
-  | .str a, .str b => a == b
-  | .int a, .int b => a == b
-  | .bool a, .bool b => a == b
-  | .ref a, .ref b => a == b
-  | .range a, .range b => a == b
-  | .set a, .set b => a == b
-  | .look o p, .look o' p' => o == o' && p.beq p'
-  | .choice ps, .choice qs => Spec.Patt.beqL ps qs
-  | .seq ps, .seq qs => Spec.Patt.beqL ps qs
-  | .if_ c p, .if_ c' p' => c.beq c' && p.beq p'
-  | .ifnot c p, .ifnot c' p' => c.beq c' && p.beq p'
-  | .not p, .not p' => p.beq p'
-  | .any p, .any p' => p.beq p'
-  | .some p, .some p' => p.beq p'
-  | .opt p, .opt p' => p.beq p'
-  | .between lo hi p, .between lo' hi' p' => lo == lo' && hi == hi' && p.beq p'
-  | .atleast n p, .atleast n' p' => n == n' && p.beq p'
-  | .atmost n p, .atmost n' p' => n == n' && p.beq p'
-  | .repeat_ n p, .repeat_ n' p' => n == n' && p.beq p'
-  | .to p, .to p' => p.beq p'
-  | .thru p, .thru p' => p.beq p'
-  | .capture p t, .capture p' t' => t == t' && p.beq p'
-  | .accumulate p t, .accumulate p' t' => t == t' && p.beq p'
-  | .group p t, .group p' t' => t == t' && p.beq p'
-  | .drop p, .drop p' => p.beq p'
-  | .onlytags p, .onlytags p' => p.beq p'
-  | .replace p v t, .replace p' v' t' => t == t' && Val.beq v v' && p.beq p'
-  | .cmt p v t, .cmt p' v' t' => t == t' && Val.beq v v' && p.beq p'
-  | .constant v t, .constant v' t' => t == t' && Val.beq v v'
-  | .argument n t, .argument n' t' => n == n' && t == t'
-  | .position t, .position t' => t == t'
-  | .line t, .line t' => t == t'
-  | .column t, .column t' => t == t'
-  | .backref s t, .backref s' t' => s == s' && t == t'
-  | .backmatch t, .backmatch t' => t == t'
-  | .unref p t, .unref p' t' => t == t' && p.beq p'
-  | .nth n p t, .nth n' p' t' => n == n' && t == t' && p.beq p'
-  | .error none, .error none => true
-  | .error (some p), .error (some p') => p.beq p'
-  | .lenprefix a p, .lenprefix a' p' => a.beq a' && p.beq p'
-  | .sub a p, .sub a' p' => a.beq a' && p.beq p'
-  | .split a p, .split a' p' => a.beq a' && p.beq p'
-  | .til a p, .til a' p' => a.beq a' && p.beq p'
-  | .readint w s b t, .readint w' s' b' t' => w == w' && s == s' && b == b' && t == t'
-  | .number p b t, .number p' b' t' => b == b' && t == t' && p.beq p'
-  | .grammar rs, .grammar rs' => Spec.Patt.beqR rs rs'
-  | _, _ => false
+  | .str b, q => match q.as_str with
+    | Option.some b' => b == b'
+    | none => false
+  | .int n, q => match q.as_int with
+    | Option.some n' => n == n'
+    | none => false
+  | .bool b, q => match q.as_bool with
+    | Option.some b' => b == b'
+    | none => false
+  | .ref name, q => match q.as_ref with
+    | Option.some name' => name == name'
+    | none => false
+  | .range rs, q => match q.as_range with
+    | Option.some rs' => rs == rs'
+    | none => false
+  | .set chars, q => match q.as_set with
+    | Option.some chars' => chars == chars'
+    | none => false
+  | .look off p, q => match q.as_look with
+    | Option.some (off', p') => off == off' && p.beq p'
+    | none => false
+  | .choice ps, q => match q.as_choice with
+    | Option.some ps' => Spec.Patt.beqL ps ps'
+    | none => false
+  | .seq ps, q => match q.as_seq with
+    | Option.some ps' => Spec.Patt.beqL ps ps'
+    | none => false
+  | .if_ c p, q => match q.as_if with
+    | Option.some (c', p') => c.beq c' && p.beq p'
+    | none => false
+  | .ifnot c p, q => match q.as_ifnot with
+    | Option.some (c', p') => c.beq c' && p.beq p'
+    | none => false
+  | .not p, q => match q.as_not with
+    | Option.some p' => p.beq p'
+    | none => false
+  | .any p, q => match q.as_any with
+    | Option.some p' => p.beq p'
+    | none => false
+  | .some p, q => match q.as_some with
+    | Option.some p' => p.beq p'
+    | none => false
+  | .opt p, q => match q.as_opt with
+    | Option.some p' => p.beq p'
+    | none => false
+  | .between lo hi p, q => match q.as_between with
+    | Option.some (lo', hi', p') => lo == lo' && hi == hi' && p.beq p'
+    | none => false
+  | .atleast n p, q => match q.as_atleast with
+    | Option.some (n', p') => n == n' && p.beq p'
+    | none => false
+  | .atmost n p, q => match q.as_atmost with
+    | Option.some (n', p') => n == n' && p.beq p'
+    | none => false
+  | .repeat_ n p, q => match q.as_repeat with
+    | Option.some (n', p') => n == n' && p.beq p'
+    | none => false
+  | .to p, q => match q.as_to with
+    | Option.some p' => p.beq p'
+    | none => false
+  | .thru p, q => match q.as_thru with
+    | Option.some p' => p.beq p'
+    | none => false
+  | .capture p tag, q => match q.as_capture with
+    | Option.some (p', tag') => p.beq p' && tag == tag'
+    | none => false
+  | .accumulate p tag, q => match q.as_accumulate with
+    | Option.some (p', tag') => p.beq p' && tag == tag'
+    | none => false
+  | .group p tag, q => match q.as_group with
+    | Option.some (p', tag') => p.beq p' && tag == tag'
+    | none => false
+  | .drop p, q => match q.as_drop with
+    | Option.some p' => p.beq p'
+    | none => false
+  | .onlytags p, q => match q.as_onlytags with
+    | Option.some p' => p.beq p'
+    | none => false
+  | .replace p v tag, q => match q.as_replace with
+    | Option.some (p', v', tag') => p.beq p' && Val.beq v v' && tag == tag'
+    | none => false
+  | .cmt p v tag, q => match q.as_cmt with
+    | Option.some (p', v', tag') => p.beq p' && Val.beq v v' && tag == tag'
+    | none => false
+  | .constant v tag, q => match q.as_constant with
+    | Option.some (v', tag') => Val.beq v v' && tag == tag'
+    | none => false
+  | .argument n tag, q => match q.as_argument with
+    | Option.some (n', tag') => n == n' && tag == tag'
+    | none => false
+  | .position tag, q => match q.as_position with
+    | Option.some tag' => tag == tag'
+    | none => false
+  | .line tag, q => match q.as_line with
+    | Option.some tag' => tag == tag'
+    | none => false
+  | .column tag, q => match q.as_column with
+    | Option.some tag' => tag == tag'
+    | none => false
+  | .backref s tag, q => match q.as_backref with
+    | Option.some (s', tag') => s == s' && tag == tag'
+    | none => false
+  | .backmatch tag, q => match q.as_backmatch with
+    | Option.some tag' => tag == tag'
+    | none => false
+  | .unref p tag, q => match q.as_unref with
+    | Option.some (p', tag') => p.beq p' && tag == tag'
+    | none => false
+  | .nth n p tag, q => match q.as_nth with
+    | Option.some (n', p', tag') => n == n' && p.beq p' && tag == tag'
+    | none => false
+  | .error o, q => match q.as_error with
+    | Option.some o' => Spec.Patt.beqO o o'
+    | none => false
+  | .lenprefix a p, q => match q.as_lenprefix with
+    | Option.some (a', p') => a.beq a' && p.beq p'
+    | none => false
+  | .sub a p, q => match q.as_sub with
+    | Option.some (a', p') => a.beq a' && p.beq p'
+    | none => false
+  | .split a p, q => match q.as_split with
+    | Option.some (a', p') => a.beq a' && p.beq p'
+    | none => false
+  | .til a p, q => match q.as_til with
+    | Option.some (a', p') => a.beq a' && p.beq p'
+    | none => false
+  | .readint w sg be tag, q => match q.as_readint with
+    | Option.some (w', sg', be', tag') => w == w' && sg == sg' && be == be' && tag == tag'
+    | none => false
+  | .number p base tag, q => match q.as_number with
+    | Option.some (p', base', tag') => p.beq p' && base == base' && tag == tag'
+    | none => false
+  | .grammar rs, q => match q.as_grammar with
+    | Option.some rs' => Spec.Patt.beqR rs rs'
+    | none => false
 def Spec.Patt.beqL : List Patt → List Patt → Bool
   | [], [] => true
   | a :: as, b :: bs => a.beq b && Spec.Patt.beqL as bs
+  | _, _ => false
+def Spec.Patt.beqO : Option Patt → Option Patt → Bool
+  | none, none => true
+  | Option.some a, Option.some b => a.beq b
   | _, _ => false
 def Spec.Patt.beqR : List (String × Patt) → List (String × Patt) → Bool
   | [], [] => true
   | (n, a) :: as, (m, b) :: bs => n == m && a.beq b && Spec.Patt.beqR as bs
   | _, _ => false
+end
 end
 
 /-! ### instructions: operands that are sub-rules -/
